@@ -114,17 +114,18 @@ let marr_eq (a : marr) (b : marr) =
 let () =
   let mode = Sys.argv.(1) and file = Sys.argv.(2) in
   let key_of kind = if kind = "kv" then key_kv else key_full in
-  let cont = ref "list" and key = ref key_full and isrec = ref false in
+  let cont = ref "list" and key = ref key_full and isrec = ref false and probed = ref false in
   if mode = "model" then
     run_cases file
       (fun cfg ->
-         (match cfg with c :: k :: _ -> cont := c; key := key_of k; isrec := (k = "rec") | _ -> failwith "case config");
+         (match cfg with c :: k :: _ -> cont := c; key := key_of k; isrec := (k = "rec"); probed := (k = "obj" || k = "kv")
+                         | _ -> failwith "case config");
          match !cont with
          | "list" -> SL (linit (nat_of_int nv))
          | "plist" -> SP (linit (nat_of_int nv))
          | _ -> SA (swinit (nat_of_int nv), ainit (nat_of_int nv)))
       (fun st _ toks ->
-         let node_line letter w r =
+         let node_line letter w r depth =
            let seqs = List.map (fun l -> List.map fst l.nodes) w in
            let pub = String.concat " " (List.mapi (fun i l ->
                dump_var letter i (int_of_nat l.msize) (List.map fst l.nodes) "" " rev ok acc ok") w) in
@@ -133,11 +134,18 @@ let () =
            let rs = match r with
              | MIt (_, Some s) | MRef (_, s) -> string_of_int (int_of_nat s)
              | _ -> "-" in
-           (* `k ok`: the stack of List::sort stays within the logarithmic bound (sort_as_coded_depth_log) *)
-           emit (Printf.sprintf "%s | %s | %s r %s k ok" (res_str (lobs_res w r) seqs (var_of toks)) pub inn rs) in
+           (* `k <frames>`: how many frames of QuickSort::sort are live at the deepest point of a sort (sort_depth;
+              theorems sort_as_coded_depth_is_printed_depth, sort_printed_depth_log); 0 where the harness does not
+              measure (no sort, element kind int: its operator< is built in) *)
+           emit (Printf.sprintf "%s | %s | %s r %s k %d" (res_str (lobs_res w r) seqs (var_of toks)) pub inn rs depth) in
          match st with
-         | SL w -> let (w', r) = lstep !key w (parse_lop toks) in node_line "L" w' r; SL w'
-         | SP w -> let (w', r) = pstep w (parse_pop !isrec toks) in node_line "P" w' r; SP w'
+         | SL w ->
+             let op = parse_lop toks in
+             let depth = match op with
+               | LSort i when !probed && int_of_nat i < nv -> int_of_nat (sort_depth !key (List.map fst (lget i w).nodes))
+               | _ -> 0 in
+             let (w', r) = lstep !key w op in node_line "L" w' r depth; SL w'
+         | SP w -> let (w', r) = pstep w (parse_pop !isrec toks) in node_line "P" w' r 0; SP w'
          | SA (sw, w) ->
              let op = parse_aop toks in
              let (w', r) = astep w op in
